@@ -112,9 +112,48 @@ def make_config(r, kind):
     return cfg
 
 
+INPUT_FORMS = ("f64", "flist", "ftuple", "ilist", "ituple", "i64", "i32", "f32")
+INTEGER_FORMS = ("ilist", "ituple", "i64", "i32")
+
+
+def as_form(values, form=None, array_only=False):
+    """The numbers `values` (vector or matrix) in one of the forms a caller may reasonably
+    pass them in: float64 array (None / "f64", the default everywhere), list / tuple of
+    Python floats, list / tuple of Python ints, int64 / int32 / float32 array.  Integer
+    forms need integral values.  array_only: the argument must be an ndarray (list and
+    tuple forms fall back to the array of the same element type)."""
+    a = np.array(values, dtype=float)
+    if form in (None, "f64"):
+        return a
+    if form not in INPUT_FORMS:
+        raise ValueError(form)
+    if form in INTEGER_FORMS and not (a == np.round(a)).all():
+        raise ValueError(f"form {form} needs integral values, got {a.tolist()}")
+    if array_only:
+        form = {"flist": "f64", "ftuple": "f64", "ilist": "i64", "ituple": "i64"}.get(form, form)
+    if form == "f64":
+        return a
+    if form == "f32":
+        return a.astype(np.float32)
+    if form == "i64":
+        return a.astype(np.int64)
+    if form == "i32":
+        return a.astype(np.int32)
+    conv = int if form in INTEGER_FORMS else float
+    seq = tuple if form.endswith("tuple") else list
+
+    def rec(x):
+        return seq(rec(v) for v in x) if isinstance(x, list) else conv(x)
+    return rec(a.tolist())
+
+
 def build(cfg, uniform_bits=None):
     """Construct the real sampler for cfg with scripted randomness.
-    Returns (sampler, posterior recorder, rng, exact fn)."""
+    Returns (sampler, posterior recorder, rng, exact fn).
+
+    cfg["input_form"] (optional): {"start" | "widths" | "bounds" | "positions" | "inv_mass":
+    one of INPUT_FORMS} -- the form in which that argument is handed to the sampler
+    (default: float64 arrays)."""
     from inference.mcmc.gibbs import GibbsChain, MetropolisChain
     from inference.mcmc.pca import PcaChain
     from inference.mcmc.hmc import HamiltonianChain
@@ -125,16 +164,19 @@ def build(cfg, uniform_bits=None):
     kind = cfg["kind"]
     ub = uniform_bits or {"ensemble": 6, "hmc": 14}.get(kind, 30)
     rng = ScriptedRNG(cfg["rng_seed"], uniform_bits=ub)
-    start = np.array(cfg["start"], dtype=float)
-    widths = np.array(cfg["widths"], dtype=float)
+    forms = cfg.get("input_form") or {}
+    start = as_form(cfg["start"], forms.get("start"))
+    widths = as_form(cfg["widths"], forms.get("widths"))
     b = cfg["bounds"]
-    bounds = None if b is None else (np.array(b[0], dtype=float), np.array(b[1], dtype=float))
+    bounds = None if b is None else (as_form(b[0], forms.get("bounds")), as_form(b[1], forms.get("bounds")))
     with warnings.catch_warnings():
         warnings.simplefilter("ignore")
         if kind in ("gibbs", "metro"):
             cls = GibbsChain if kind == "gibbs" else MetropolisChain
             ch = cls(posterior=post, start=start, widths=widths, temperature=cfg["T"], display_progress=False)
             for i, lim in enumerate(cfg["limits"]):
+                if forms.get("bounds") in INTEGER_FORMS and lim[0] in ("bnd", "both"):
+                    lim = (lim[0], int(lim[1]), int(lim[2]))
                 if lim[0] == "bnd":
                     ch.set_boundaries(i, (lim[1], lim[2]))
                 elif lim[0] == "both":
@@ -156,13 +198,16 @@ def build(cfg, uniform_bits=None):
         elif kind == "hmc":
             im = cfg.get("inv_mass")
             if isinstance(im, list):
-                im = np.array(im, dtype=float)
+                im = as_form(im, forms.get("inv_mass"), array_only=True)
+            elif im is not None and forms.get("inv_mass") in INTEGER_FORMS:
+                im = int(im)
             ch = HamiltonianChain(posterior=post, start=start, grad=post.gradient, epsilon=cfg["eps"],
                                   temperature=cfg["T"], bounds=bounds, inverse_mass=im, display_progress=False)
             ch.steps = cfg["steps"]
             ch.rng = rng
         elif kind == "ensemble":
-            ch = EnsembleSampler(posterior=post, starting_positions=np.array(cfg["positions"], dtype=float),
+            ch = EnsembleSampler(posterior=post,
+                                 starting_positions=as_form(cfg["positions"], forms.get("positions"), array_only=True),
                                  alpha=cfg["alpha"], bounds=bounds, display_progress=False)
             ch.rng = rng
             ch.max_attempts = int(cfg.get("max_attempts", 100))
